@@ -332,13 +332,13 @@ def nestRep (it : Nat → Nat) : List Nat → List Nat → List Nat
   | [], t => t
   | l :: ls, t => (List.replicate (it l) (nestRep it ls t)).flatten
 
-/-- the leaves one statement contributes: nothing for a no-op; otherwise its id, if its guard
-    holds, once per iteration vector of exactly its declared loops -/
+/-- the leaves one statement contributes: nothing for a no-op or a false guard; otherwise its id
+    once per iteration vector of exactly its declared loops -/
 def stmtTrace (v : Nat → Bool) (it : Nat → Nat) (s : LStmt) : List Nat :=
   bif s.isNop then []
-  else nestRep it s.loops (match s.cond with
-    | none => [s.id]
-    | some c => bif c.eval v then [s.id] else [])
+  else match s.cond with
+    | none => nestRep it s.loops [s.id]
+    | some c => bif c.eval v then nestRep it s.loops [s.id] else []
 
 theorem trace_wrapLoops (v : Nat → Bool) (it : Nat → Nat) (a : Ast) : ∀ ls : List Nat,
     trace v it (wrapLoops ls a) = nestRep it ls (trace v it a)
@@ -348,13 +348,11 @@ theorem trace_wrapLoops (v : Nat → Bool) (it : Nat → Nat) (a : Ast) : ∀ ls
 theorem trace_wrap (v : Nat → Bool) (it : Nat → Nat) (s : LStmt) (h : s.isNop = false) :
     trace v it (wrap s) = stmtTrace v it s := by
   unfold wrap stmtTrace
-  rw [trace_wrapLoops, h]
+  rw [h]
   simp only [cond_false]
-  congr 1
-  unfold wrapCond
   cases s.cond with
-  | none => simp [trace]
-  | some c => simp [trace]
+  | none => simp [trace_wrapLoops, trace]
+  | some c => simp [trace, trace_wrapLoops]
 
 def orderTrace (p : Phase) (v : Nat → Bool) (it : Nat → Nat) (o : List Nat) : List Nat :=
   o.flatMap fun i => match lookup p i with
